@@ -269,7 +269,7 @@ fn shr_c06(c: &c06::TextCase) -> Vec<c06::TextCase> {
 }
 
 const ARITH_VALUES: [&str; 16] =
-    ["", "0", "1", "-1", "63", "64", "9223372036854775807", "-9223372036854775808", "9223372036854775808", "010", "0x10", "08", "x", "1+1", " 2", "b"];
+    ["", "0", "1", "-1", "63", "64", "9223372036854775807", "-9223372036854775808", "9223372036854775808", "010", "0x10", "08", "x", "-9223372036854775809", "-18446744073709551615", "b"];
 
 fn dec_c03(data: &[u8]) -> Option<c03::TextCase> {
     if data.len() < 2 {
